@@ -57,15 +57,30 @@ class C19Run(object):
         self.peer = pr
         url = pr.url_base + ("/" if p["family"] == "tcp" else "")
         s.emit("url", url)
-        proxy = self.jc.ServerProxy(url)
+        # the proxy's own configuration: protocol version, verbosity, and which of the calls are notifications
+        variant = p.get("variant", 0)
+        kwargs = {}
+        if variant == 1:
+            kwargs["version"] = 1.0
+        elif variant == 2:
+            kwargs["verbose"] = 1
+        elif variant == 3:
+            kwargs["version"] = 1.0
+        proxy = self.jc.ServerProxy(url, **kwargs)
+        s.probe("proxy_variant_%d" % variant)
         ncalls = p.get("ncalls", len(p["script"]) + 3)
         for i in range(ncalls):
             tok = "t%d" % i
             before = pr.pos
-            s.emit("call", i)
+            notify = variant == 3 and i % 2 == 0 or variant == 2 and i % 3 == 1
+            s.emit("call", i, notify)
             try:
-                val = proxy.echo(tok)
-                out = ["value", val]
+                if notify:
+                    val = proxy._notify.echo(tok)
+                    out = ["value", tok if val is None else ["notification-returned", val]]
+                else:
+                    val = proxy.echo(tok)
+                    out = ["value", val]
             except core.SimAbort:
                 raise
             except self.jc.TransportError as ex:
@@ -96,6 +111,7 @@ def analyse_c19(program, s, run, verdict):
     pr = run.peer
     outcomes = {}
     window = {}
+    notif = {}
     cur = None
     refused = {}  # call -> number of refuse symbols consumed inside its window
     exhausted_at = -1 if not script else None  # log index at which the last script symbol was consumed
@@ -108,6 +124,7 @@ def analyse_c19(program, s, run, verdict):
         elif kind == "call":
             cur = ev[3]
             window[cur] = [idx, None]
+            notif[cur] = bool(ev[4]) if len(ev) > 4 else False
         elif kind == "outcome":
             outcomes[ev[3]] = ev[4]
             window[ev[3]][1] = idx
@@ -134,7 +151,7 @@ def analyse_c19(program, s, run, verdict):
             if out[1] != tok:
                 v.append(Violation("C19", "own-result", "foreign-or-stale",
                                    "call %d returned %r instead of its own token (replies to its requests: %s)" % (i, out[1], syms)))
-            elif not any(x in ("ok", "ok-close") for x in syms):
+            elif not any(x in ("ok", "ok-close") or (x == "empty-200" and notif.get(i)) for x in syms):
                 v.append(Violation("C19", "own-result", "value-without-healthy-reply",
                                    "call %d returned a value although none of its requests was answered healthily (%s)" % (i, syms)))
         elif out[0] == "transport-error":
@@ -207,16 +224,27 @@ class C19Scenario(object):
         if index < self.must_cover:
             cfg, k = divmod(index, self.nscripts)
             fam, cw = divmod(cfg, 3)
-            return {"family": ("tcp", "unix")[fam], "script": self.script_for(k), "closed_write": cw, "seg": "whole"}
+            return {"family": ("tcp", "unix")[fam], "script": self.script_for(k), "closed_write": cw, "seg": "whole",
+                    "variant": (k + cfg) % 4}
         return self.generate(rng)
 
     def generate(self, rng):
         n = rng.randint(1, 12)
         script = [rng.choice(peermod.SYMBOLS) for _ in range(n)]
         return {"family": rng.choice(["tcp", "unix"]), "script": script, "closed_write": rng.choice([0, 1, 2, "random"]),
-                "seg": rng.choice(["whole", "random", "small"]), "http10": rng.random() < 0.15}
+                "seg": rng.choice(["whole", "random", "small"]), "http10": rng.random() < 0.15, "variant": rng.randrange(4)}
 
     def run(self, program, decider, chooser=None):
+        if program.get("variant") == 2:
+            # a verbose proxy makes http.client print its traffic: not the check's output
+            import contextlib
+            import os
+
+            with open(os.devnull, "w") as null, contextlib.redirect_stdout(null):
+                return self._run(program, decider, chooser)
+        return self._run(program, decider, chooser)
+
+    def _run(self, program, decider, chooser=None):
         cw = program.get("closed_write", "random")
         if cw != "random":
             chooser = PolicyChooser(chooser, {"write-to-closed": cw})
@@ -356,10 +384,17 @@ def gen_ops(rng, depth, budget, palette=None):
 def gen_c18(rng):
     # a small palette of names per history, so that nested blocks redefine each other's headers
     palette = rng.sample(["X-A", "X-Test", "User-Agent", "Content-Type", "Content-Length", "Authorization", "X-Num"], rng.randint(1, 3))
-    return {"family": rng.choice(["tcp", "unix"]), "ctor": gen_headers(rng, palette) if rng.random() < 0.7 else None,
+    prog = {"family": rng.choice(["tcp", "unix"]), "ctor": gen_headers(rng, palette) if rng.random() < 0.7 else None,
             "user_agent": rng.choice([None, "custom-agent/1.0"]), "content_type": rng.choice(["application/json-rpc", "application/json"]),
             "ops": gen_ops(rng, 0, [rng.randint(3, 10)], palette), "http10": rng.random() < 0.2,
             "credentials": rng.choice([None, None, "user:secret"])}
+    return gen_c18_second(rng, prog, palette)
+
+
+def gen_c18_second(rng, prog, palette):
+    if rng.random() < 0.2:
+        prog["second"] = gen_headers(rng, palette) if rng.random() < 0.8 else None
+    return prog
 
 
 class C18Run(object):
@@ -479,6 +514,15 @@ class C18Run(object):
         ctor = header_dict(p.get("ctor")) if p.get("ctor") is not None else None
         self.proxy = self.jc.ServerProxy(url, headers=ctor, config=cfg)
         self.stack = [ctor or {}]
+        layers = [header_dict(p.get("ctor"))]
+        if "second" in p:
+            # a second proxy built on the transport of the first: its constructor headers are pushed on top of the
+            # first one's, and the requests below go through it
+            ctor2 = header_dict(p["second"]) if p["second"] is not None else None
+            self.proxy = self.jc.ServerProxy(url, headers=ctor2, config=cfg, transport=self.proxy("transport"))
+            self.stack.append(ctor2 or {})
+            layers.append(header_dict(p["second"]))
+            s.probe("second_proxy_on_the_same_transport")
         try:
             self.interp(p["ops"])
         except core.SimAbort:
@@ -490,7 +534,7 @@ class C18Run(object):
         # after everything: only the constructor headers remain; one more healthy call proves it on the wire
         tr = self.proxy("transport")
         s.emit("final.stack", [dict((str(k), str(v)) for k, v in d.items()) for d in tr.additional_headers] ==
-               [dict((str(k), str(v)) for k, v in header_dict(p.get("ctor")).items())], len(tr.additional_headers))
+               [dict((str(k), str(v)) for k, v in layer.items()) for layer in layers], len(tr.additional_headers))
         try:
             self.do_request("call")
         except core.SimAbort:
@@ -703,13 +747,14 @@ def gen_c17(rng):
                 "seg": rng.choice(["whole", "random", "small"]), "http10": rng.random() < 0.5,
                 "style": rng.choice(["call", "call", "notify", "batch"]), "indent": rng.choice([None, None, None, 1200]),
                 # an earlier exchange on the same proxy is cut in the middle of a large body (or reset): the judged one must not see its remains
-                "pre_fault": rng.choice([None, None, None, "truncated", "reset-mid-body", "bad-header"])}
+                "pre_fault": rng.choice([None, None, None, "truncated", "reset-mid-body", "bad-header"]),
+                "transport": rng.choice(["own", "own", "supplied", "shared"]), "late_content_type": rng.random() < 0.15}
     if k < 0.9:
         chunk = rng.choice([None, 1, 2, 3, 5, 7, 16, 64, 1000])
         return {"mode": "server", "kind": rng.choice(["plain", "pooled"]), "family": rng.choice(["tcp", "unix"]),
                 "chunk": chunk, "backend": backend, "param": gen_text(rng, rng.choice([None, 40, 7, 64])),
                 "content_type": rng.choice(["application/json-rpc", "application/json"]),
-                "seg": rng.choice(["whole", "random", "small"]), "unbuffered": rng.random() < 0.3, "empty_body": rng.random() < 0.08}
+                "seg": rng.choice(["whole", "random", "small"]), "unbuffered": rng.random() < 0.3, "empty_body": rng.random() < 0.08, "notification": rng.random() < 0.12}
     if k < 0.95:
         return {"mode": "cgi", "backend": backend, "param": gen_text(rng), "content_type": rng.choice(["application/json-rpc", "application/json"]),
                 "via": rng.choice(["stdin", "stdin", "text"])}
@@ -786,7 +831,22 @@ class C17Run(object):
         if p["query"]:
             url += "?" + p["query"]
         s.emit("url", url)
-        proxy = self.jc.ServerProxy(url, config=cfg)
+        if p.get("late_content_type"):
+            # the configuration is completed after the proxy was built: what counts is the Config at the time of the call
+            cfg.content_type = "application/x-early-value"
+        how = p.get("transport", "own")
+        if how == "supplied":
+            # a transport built by the caller
+            tr = self.jc.UnixTransport(config=cfg, path=pr.addr) if p["family"] == "unix" else self.jc.Transport(config=cfg)
+            proxy = self.jc.ServerProxy(url, config=cfg, transport=tr)
+        elif how == "shared":
+            # a second proxy on the transport of a first one
+            first = self.jc.ServerProxy(url, config=cfg)
+            proxy = self.jc.ServerProxy(url, config=cfg, transport=first("transport"))
+        else:
+            proxy = self.jc.ServerProxy(url, config=cfg)
+        if p.get("late_content_type"):
+            cfg.content_type = p["content_type"]
         if p.get("pre_fault") == "bad-header":
             # a call that fails on the client side after the request line was prepared: http.client refuses the value
             # of an additional header (a line break in it); nothing reaches the peer
@@ -872,6 +932,9 @@ class C17Run(object):
             body = json.dumps({"jsonrpc": "2.0", "method": "echo", "params": [p["param"]], "id": 1}, ensure_ascii=False).encode("utf-8")
             if p.get("empty_body"):
                 body = b""  # size 0: answered like any other body (an invalid-request error)
+            elif p.get("notification"):
+                # nothing to answer: the (empty) reply is a message with a declared length and content type like any other
+                body = json.dumps({"jsonrpc": "2.0", "method": "echo", "params": [p["param"]]}, ensure_ascii=False).encode("utf-8")
             sm = simnet.module()
             if unix:
                 sock = sm.socket(socket.AF_UNIX, socket.SOCK_STREAM)
@@ -1063,6 +1126,11 @@ def analyse_c17(program, s, run, verdict):
                     v.append(Violation("C17", "reassembly", "server-empty-body-reply", "an empty request body was answered %r" % body[:80]))
             except ValueError:
                 v.append(Violation("C17", "reassembly", "server-reply-undecodable", "reply to an empty body is not UTF-8 JSON"))
+        elif p.get("notification"):
+            if body != b"":
+                v.append(Violation("C17", "reassembly", "server-notification-answered", "a notification was answered %r" % body[:80]))
+            if not ev["server.got"][3]:
+                v.append(Violation("C17", "reassembly", "server-text-differs", "the method did not receive the text that was sent"))
         else:
             try:
                 obj = json.loads(body.decode("utf-8"))
@@ -1130,6 +1198,10 @@ class C17Scenario(object):
                 p["earlier_exchange_cut_mid_body"] = 1
             if pg.get("pre_fault") == "bad-header":
                 p["earlier_call_refused_while_building_headers"] = 1
+            if pg.get("transport", "own") != "own":
+                p["transport_" + pg["transport"]] = 1
+            if pg.get("late_content_type"):
+                p["content_type_set_after_the_proxy_was_built"] = 1
             if "%" in pg["path"]:
                 p["percent_escape_in_path"] = 1
             p["family_" + pg["family"]] = 1
@@ -1141,6 +1213,8 @@ class C17Scenario(object):
             p["server_" + pg["kind"]] = 1
             if pg.get("empty_body"):
                 p["empty_request_body"] = 1
+            elif pg.get("notification"):
+                p["server_answers_a_notification_with_an_empty_message"] = 1
         if s.faults.get("short_read"):
             p["short_reads"] = 1
         stats = {"steps": s.step, "switches": s.nswitch, "simtime": s.now, "verdict": verdict.kind if verdict else None,
